@@ -3,10 +3,10 @@ From DV Require Import Model.ConcRules Proofs.ConcProofs Proofs.RulerProofs.
 From Coq Require Import Lia Permutation.
 Local Open Scope Z_scope.
 
-Lemma nk_inj a b : nk a = nk b -> a = b.
+Lemma nk_inj a b : nkey a = nkey b -> a = b.
 Proof. apply N2Nat.inj. Qed.
 
-Lemma nodup_map_nk l : NoDup l -> NoDup (map nk l).
+Lemma nodup_map_nk l : NoDup l -> NoDup (map nkey l).
 Proof.
   induction 1 as [|x l Hn ND IH]; cbn; constructor; auto.
   intros Hin. apply in_map_iff in Hin. destruct Hin as (y & Hy & Hin). apply nk_inj in Hy. now subst.
@@ -22,13 +22,13 @@ Lemma ckeys_nodup r : NoDup (ckeys r).
 Proof.
   destruct r as [rs|p|ip ds]; cbn.
   - destruct (lockable (map r_key rs)) eqn:E; [|constructor].
-    rewrite <- (map_map r_key nk). now apply nodup_map_nk, lockable_nodup.
+    rewrite <- (map_map r_key nkey). now apply nodup_map_nk, lockable_nodup.
   - repeat constructor. intros [].
   - destruct (lockable (map fst ds)) eqn:E; [|constructor].
-    rewrite <- (map_map fst nk). now apply nodup_map_nk, lockable_nodup.
+    rewrite <- (map_map fst nkey). now apply nodup_map_nk, lockable_nodup.
 Qed.
 
-Lemma rdv_ext l1 l2 k : rd l1 (nk k) = rd l2 (nk k) -> rdv l1 k = rdv l2 k.
+Lemma rdv_ext l1 l2 k : rd l1 (nkey k) = rd l2 (nkey k) -> rdv l1 k = rdv l2 k.
 Proof. unfold rdv. now intros ->. Qed.
 
 Lemma cdecide_local c r l1 l2 :
@@ -60,11 +60,6 @@ Qed.
 
 (* ---- the generic theorems, closed for the concrete rules ---- *)
 
-Definition cworld := world cval creq (list rres).
-Definition cfire (c : rcfg) := fire ckeys (cdecide c).
-Definition creach (c : rcfg) := reach ckeys (cdecide c).
-Definition crun_sched (c : rcfg) := run_sched ckeys (cdecide c).
-Definition cser (c : rcfg) := ser ckeys (cdecide c).
 
 Theorem conc_serializable c s0 rs (w : cworld) :
   creach c s0 rs w -> all_finished _ _ _ w ->
